@@ -59,6 +59,61 @@ def run(repo: Repo, L: Ledger, tier: str):
 # ------------------------------------------------------------------------------ result sites / bisect
 
 
+def _ends_known_not_gap(find: Func, p, ctor: ast.Call) -> bool:
+    """The result's rows are `R[lo:hi]` (or all of R) and the path conditions include `not isinstance(R[lo], Gap)` and
+    `not isinstance(R[hi-1], Gap)` (indices compared as linear forms over the path's locals)."""
+    from ..flow import cond_facts
+    from ..util import resolve_on_path
+
+    rows = next((k.value for k in ctor.keywords if k.arg == "rows"), None)
+    if rows is None:
+        return False
+    i_ret = len(p.events) - 1
+    rows = resolve_on_path(p, i_ret, rows)
+    if isinstance(rows, ast.Subscript) and isinstance(rows.slice, ast.Slice) and rows.slice.step is None:
+        base, lo, hi = rows.value, rows.slice.lower, rows.slice.upper
+    elif isinstance(rows, ast.Attribute | ast.Name):
+        base, lo, hi = rows, None, None
+    else:
+        return False
+    bt = norm(base)
+
+    def lin(e):
+        try:
+            return _alin(e)
+        except Exception:
+            return None
+
+    want_first = lin(lo) if lo is not None else lin(ast.Constant(0))
+    if hi is not None:
+        hl = lin(hi)
+        want_last = None if hl is None else hl - Lin.const(1)
+    else:
+        want_last = "LAST"
+    if want_first is None or want_last is None:
+        return False
+    got_first = got_last = False
+    for i, e in enumerate(p.events):
+        if e.kind != "cond":
+            continue
+        for t, v in cond_facts(e.node, e.val):
+            if v is False and isinstance(t, ast.Call) and dotted(t.func) == "isinstance" and len(t.args) == 2 and dotted(t.args[1]) == "Gap":
+                a = resolve_on_path(p, i, t.args[0])
+                if isinstance(a, ast.Subscript) and norm(a.value) == bt and not isinstance(a.slice, ast.Slice):
+                    ix = a.slice
+                    li = lin(ix)
+                    if li is not None and li == want_first:
+                        got_first = True
+                    if want_last == "LAST":
+                        if isinstance(ix, ast.UnaryOp) and isinstance(ix.op, ast.USub) and isinstance(ix.operand, ast.Constant) and ix.operand.value == 1:
+                            got_last = True
+                        if li is not None and li == lin(ast.parse(f"len({bt}) - 1", mode="eval").body):
+                            got_last = True
+                    elif li is not None and li == want_last:
+                        got_last = True
+    return got_first and got_last
+
+
 def _result_sites(repo, L, find: Func):
     """R3/R6 must-pass-through: every path that returns a lookup result has gone through both terminal-gap walks
     (the while loops testing isinstance(<row>, Gap)) — no shortcut returns rows with leading/trailing gaps or an
@@ -78,6 +133,8 @@ def _result_sites(repo, L, find: Func):
         n_ret += 1
         seen = {id(e.node) for e in p.events if e.kind == "cond"}
         missing = [w for w in strip if id(w.test) not in seen]
+        if missing and _ends_known_not_gap(find, p, rets[-1].value):
+            continue  # the path has itself established that the first and the last row of the result are not gaps
         if missing and bad is None:
             bad = (rets[-1], p)
     L.check(
